@@ -45,10 +45,10 @@ theorem specPath_append (b : Bytes) : ∀ (p : Path) (pos : Nat) (s : PStep),
 
 /-- **what a valid handle is**: its path is one the eager decoder can follow, the node is a
     correct partial view of the value found there, and its shape is that value's header -/
-theorem nodeAt_spec {c : Ctx} (hc : CInv c) (hwf : WF c.input) {h : Handle} {m : Node}
+theorem nodeAt_spec {c : Ctx} (hc : CInv c) {h : Handle} {m : Node}
     (hm : c.nodeAt? h = some m) :
     ∃ pos hd, specPath c.input 0 h.path = some pos ∧ readHdr c.input pos = some hd ∧ Inv c.input pos m ∧
-      GoodAt c.input pos ∧ Spec.hdrAt c.input h = some hd ∧ m.shape = (mkNode hd).shape := by
+      Spec.hdrAt c.input h = some hd ∧ m.shape = (mkNode hd).shape := by
   unfold Ctx.nodeAt? at hm
   cases hr : c.roots[h.root]? with
   | none => rw [hr] at hm; cases hm
@@ -56,7 +56,7 @@ theorem nodeAt_spec {c : Ctx} (hc : CInv c) (hwf : WF c.input) {h : Handle} {m :
     rw [hr] at hm
     obtain ⟨pos, hp, hinv⟩ := inv_path h.path (hc _ r hr) hm
     obtain ⟨hd, hh⟩ := inv_hdr hinv
-    exact ⟨pos, hd, hp, hh, hinv, good_path h.path hwf hp, by simp only [Spec.hdrAt, hp, hh], inv_shape hinv hh⟩
+    exact ⟨pos, hd, hp, hh, hinv, by simp only [Spec.hdrAt, hp, hh], inv_shape hinv hh⟩
 
 theorem encodeNode_shape (h : Handle) (n : Node) : Ctx.encodeNode h n.shape = Ctx.encodeNode h n := by
   cases n with
